@@ -37,6 +37,7 @@ type Obligation struct {
 	Cover  bool `json:"cover,omitempty"` // must be SAT (vacuity guard)
 	Known  bool `json:"known,omitempty"` // the known-finding case itself: expected NOT to be provable
 	Assume bool `json:"-"`               // do not add as a fact afterwards
+	Uninterpretable string `json:"uninterpretable,omitempty"` // the clause could not be translated at this site (goal is false)
 }
 
 func newQuery() *Query { return &Query{names: map[string]int{}} }
